@@ -26,7 +26,7 @@ TrPc == /\ HasEvent("Pc") /\ step = "done"
         /\ Consume(Named([
              raised |-> E.raised,
              not_a_number |-> ~E.raised /\ E.special # "",
-             wrong_value |-> ~E.raised /\ E.special = "" /\ ~REq(E.ret, res),
+             wrong_value |-> ~E.raised /\ E.special = "" /\ RNorm(<<E.ret[1], E.ret[2]>>) # res,      \* both in lowest terms: no cross products (count vectors of hundreds)
              outside_unit_interval |-> ~E.raised /\ E.special = "" /\ ~(RLe(<<0, 1>>, E.ret) /\ RLe(E.ret, <<1, 1>>)) ]))
 
 \* large samples (thousands of elements): the returned fraction times the number of pairs (N(N-1), or N1*N2) is logged as an
